@@ -1,9 +1,69 @@
-(** Property C01 — statements only. Each theorem is closed by [exact] of a lemma
-    proved elsewhere and followed by [Print Assumptions]. *)
-From CR Require Import Base Atomic Machine LinksFacts HeapFacts TraceFacts Local.
+(** Property C01 — no premature destruction. Statements only: each theorem is
+    closed by [exact] of a lemma proved elsewhere and followed by
+    [Print Assumptions]. *)
+From Coq Require Import Permutation.
+From CR Require Import Base Atomic Machine LinksFacts HeapFacts TraceFacts TraceTotal Local StackBound
+  Termination Perm StdRc StdRefine Tokens InvDef InvLemmas ActBase ActHandles ActAdopt ActMove ActConsume
+  StepFrames StepPanic Purge GroupOps DropDec Group DropLast StepInv RunInv Consequences Common.
 Local Open Scope N_scope.
 
-Theorem C01_trace_is_closure_partial :
+(** Full statement. For every history (any length, any graph shape, any choice
+    oracle = table iteration order of every group teardown) that is disciplined
+    when library drop logic starts ([hist_ok]: no live object records more
+    adoptions of a target than its value holds handles to it; destructor
+    scripts use destroyed objects only by clone/drop/upgrade/count): no call
+    touches released or moved-out memory, and after the calls the invariant
+    [Inv] holds ... *)
+Theorem C01_disciplined_histories_keep_invariant :
+  forall fuel h, hist_ok fuel init_state h = true ->
+  Forall (fun r => match r with OHalt e => e = HAbort | _ => True end) (snd (run_history fuel init_state h)) /\
+  (forallb completed (snd (run_history fuel init_state h)) = true -> Inv (fst (run_history fuel init_state h)) []).
+Proof. exact run_history_from_init. Qed.
+Print Assumptions C01_disciplined_histories_keep_invariant.
+
+(** ... and under [Inv] — at a call boundary or in ANY intermediate
+    configuration, also while destructors run — everything reachable from the
+    handles the program holds (through stored handles, adopted or not) is
+    alive: value in place, allocation not released. *)
+Theorem C01_reachable_objects_are_alive :
+  forall s k o, Inv s k -> reachable s o -> alive s o.
+Proof. exact reachable_alive. Qed.
+Print Assumptions C01_reachable_objects_are_alive.
+
+Theorem C01_invariant_in_every_configuration :
+  forall pri c c', steps pri c c' -> Inv_cfg c -> Inv_cfg c'.
+Proof. exact steps_inv. Qed.
+Print Assumptions C01_invariant_in_every_configuration.
+
+Theorem C01_deref_reads_value_in_place :
+  forall s k r o, Inv s k -> reg_get s r = RStrong o ->
+  exists b p, getb (heap_of s) o = Ok b /\ value b = Some p /\
+    exec_act s None (ADeref (HReg r)) = AO s None (RNat (N.of_nat (pid p))) [].
+Proof. exact deref_held. Qed.
+Print Assumptions C01_deref_reads_value_in_place.
+
+(** The heart of it: soundness of the orphan test. If the test passes on a heap
+    whose TRACED objects are disciplined, the collected set is exactly the
+    traced set, every member can be torn down, and the invariant (in particular
+    "no handle held by the program, a surviving value or a pending frame targets
+    a destroyed object") holds afterwards. *)
+Theorem C01_orphan_test_sound :
+  forall s k o pri cyc pops visits,
+  Inv s k -> (forall x, reach (heap_of s) o x -> disc_at (heap_of s) x) ->
+  orphaned_cycle (heap_of s) o = Ok (Some cyc, pops, visits) ->
+  let cyc' := order_cycle pri cyc in
+  let keys := map fst cyc' in
+  exists h2 h3 inners,
+    bust_all (heap_of s) keys cyc' = Ok h2 /\ gather h2 keys [] = Ok (h3, inners) /\
+    group_heap (heap_of s) h3 keys /\
+    (forall y, In y keys <-> reach (heap_of s) o y) /\
+    Inv (add_ev (set_heap (add_ev s (EvTrace o pops visits)) h3) (EvGroup keys))
+        (FInners inners :: FFinishGroup keys :: k).
+Proof. exact group_inv. Qed.
+Print Assumptions C01_orphan_test_sound.
+
+(** the trace computes the forward closure and the per-target sums (used above) *)
+Theorem C01_trace_is_closure :
   forall h a own pops visits,
   cycle_refs h a = Ok (own, pops, visits) ->
   exists R,
@@ -14,5 +74,9 @@ Theorem C01_trace_is_closure_partial :
     visits = N.of_nat (length R) /\
     pops = (1 + sumN (map (fun x => N.of_nat (length (fwd_targets (tbl_of h x)))) R))%N.
 Proof. exact cycle_refs_spec. Qed.
-Print Assumptions C01_trace_is_closure_partial.
+Print Assumptions C01_trace_is_closure.
 
+(** the hypotheses are satisfiable by a non-trivial history *)
+Theorem C01_nonvacuous : hist_ok ex_fuel init_state ex_history = true.
+Proof. exact ex_history_ok. Qed.
+Print Assumptions C01_nonvacuous.
